@@ -589,3 +589,13 @@ def run(program, rep, tier):
     check_prototype(program, rep)
     check_update(program, rep)
     check_update_world(program, rep)
+    # Controller learns its entity through on_add, which it declares with
+    # @event_handler: decorating a Controller subclass with further events must
+    # not change what Controller (and its other subclasses) declare
+    from rules import c03
+    rep.borrow(c03.check_mapping, program, rep,
+               keep=lambda o: o.rule == 'C03.mapping',
+               rename=lambda r: 'C19.mapping',
+               why='a plain Controller ends up declaring events of a decorated '
+               'subclass: attaching it raises in add_handler after the '
+               'component was stored, it never learns its entity and world')
